@@ -189,9 +189,9 @@ theorem la_unfold (hD : keywordsPlainStart D = true) (hskip : la.skip = sk) (hsk
   have hsk' : la.skip.all stableKind = true := by
     rw [hskip, List.all_eq_true] at *
     intro K hK; simp [stableKind, hsk K hK]
-  rw [lookaheadLoop, run_bind, h0] at h
+  rw [lookaheadLoop, prun_bind, h0] at h
   dsimp only at h
-  rw [run_bind] at h
+  rw [prun_bind] at h
   rcases hr1 : run (matchAny D cap stop la.expected t) c1 with ⟨r1, c2⟩
   rw [hr1] at h
   obtain ⟨hf1, hμ1, hc1, hv1⟩ := matchAny_spec la.expected hexp' hr1
@@ -205,7 +205,7 @@ theorem la_unfold (hD : keywordsPlainStart D = true) (hskip : la.skip = sk) (hsk
     dsimp only at h
     split at h
     · rename_i hm
-      rw [run_pure] at h
+      rw [prun_pure] at h
       cases h
       refine ⟨_, hf1, hμ1, by unfold laCost; omega, .inr ⟨rfl, .inr ⟨?_, _, t1, hl1, hn1, rfl⟩⟩⟩
       cases hs : skipM D sk c1.μ t.line with
@@ -214,7 +214,7 @@ theorem la_unfold (hD : keywordsPlainStart D = true) (hskip : la.skip = sk) (hsk
         have := skipM_not_titles D D hD c1.μ hμ sk hsk la.expected hexp t.line hs
         rw [← hm1, hm] at this
         cases this
-    · rw [run_bind] at h
+    · rw [prun_bind] at h
       rcases hr2 : run (matchAny D cap stop la.skip t1) c2 with ⟨r2, c3⟩
       rw [hr2] at h
       obtain ⟨hf2, hμ2, hc2, hv2⟩ := matchAny_spec la.skip hsk' hr2
@@ -231,7 +231,7 @@ theorem la_unfold (hD : keywordsPlainStart D = true) (hskip : la.skip = sk) (hsk
         · rename_i hst
           exact .inl ⟨by rw [← hs]; exact hst, t2, hl2.trans hl1, hn2.trans hn1, h⟩
         · rename_i hst
-          rw [run_pure] at h
+          rw [prun_pure] at h
           cases h
           exact .inr ⟨rfl, .inr ⟨by rw [← hs]; simpa using hst, _, t2, hl2.trans hl1, hn2.trans hn1, rfl⟩⟩
 
@@ -252,7 +252,7 @@ theorem la_queue (hD : keywordsPlainStart D = true) (hskip : la.skip = sk) (hsk 
     intro fuel acc c hq hg hμ r c' h
     cases fuel with
     | zero =>
-      rw [lookaheadLoop, run_throw] at h; cases h
+      rw [lookaheadLoop, prun_throw] at h; cases h
       exact ⟨rfl, rfl, rfl, Nat.le_add_right _ _, fun m read he => by cases he⟩
     | succ fuel =>
       have h0 := run_readToken_cons hq
@@ -299,7 +299,7 @@ theorem la_fresh (hD : keywordsPlainStart D = true) (hskip : la.skip = sk) (hsk 
   induction fuel with
   | zero =>
     intro acc c hq _ _ r c' h
-    rw [lookaheadLoop, run_throw] at h; cases h
+    rw [lookaheadLoop, prun_throw] at h; cases h
     exact ⟨rfl, hq, Nat.le_refl _, fun h => by omega, Nat.le_add_right _ _, fun m read he => by cases he⟩
   | succ fuel ih =>
     intro acc c hq hμ hlines r c' h
@@ -357,9 +357,9 @@ theorem lookahead_spec (hD : keywordsPlainStart D = true) (hskip : la.skip = sk)
     c'.calls ≤ c.calls + laCost la * (c'.lineNo - k) ∧ (c.queue ≠ [] → c'.lineNo = c.lineNo) ∧
     (∀ b, r = .ok b → QS D L k c' ∧ Good (skipM D sk c'.μ) (c'.queue.map (·.line)) ∧ c'.μ = c.μ ∧
       (c.queue ≠ [] → c'.queue.length = c.queue.length)) := by
-  rw [lookahead, run_bind, run_get] at h
+  rw [lookahead, prun_bind, run_get] at h
   dsimp only at h
-  rw [run_bind] at h
+  rw [prun_bind] at h
   rcases hr : run (lookaheadLoop D cap stop la (c.queue.length + c.lines.length + 2) []) c with ⟨r1, c1⟩
   rw [hr] at h
   have hfoot := lookaheadLoop_foot D cap stop la _ _ _ _ _ hr
@@ -378,9 +378,9 @@ theorem lookahead_spec (hD : keywordsPlainStart D = true) (hskip : la.skip = sk)
     | ok r1 =>
       obtain ⟨m, read⟩ := r1
       dsimp only at h
-      rw [run_bind, run_modify] at h
+      rw [prun_bind, run_modify] at h
       dsimp only at h
-      rw [run_pure] at h
+      rw [prun_pure] at h
       cases h
       obtain ⟨new, hnew, hg, hk', hln', hls⟩ := hok m read rfl
       rw [List.nil_append] at hnew
@@ -402,9 +402,9 @@ theorem lookahead_spec (hD : keywordsPlainStart D = true) (hskip : la.skip = sk)
     | ok r1 =>
       obtain ⟨m, read⟩ := r1
       dsimp only at h
-      rw [run_bind, run_modify] at h
+      rw [prun_bind, run_modify] at h
       dsimp only at h
-      rw [run_pure] at h
+      rw [prun_pure] at h
       cases h
       obtain ⟨hq1, q', hread, hq'⟩ := hok m read rfl
       rw [List.nil_append] at hread
